@@ -636,7 +636,26 @@ def r7_defaults(ctx):
                           ("remove_empty_ballots", "keep_candidates", "False")])
 
 
+def r8_weight_validator(ctx):
+    """Merged ballots carry the exact sum of the merged weights and an expanded tie carries weight / k! - computed exactly
+    by these utilities and handed to Ballot(...); they arrive only if the weight validator of Ballot leaves a Fraction as it is
+    (limit_denominator applied to a Fraction moves any weight whose denominator exceeds 10**6).  Decided by the weight clauses
+    of C11.R2; the verdicts are those of C03.R11 / C02.R10 by construction."""
+    from rules import c11
+    sub = type(ctx)(ctx.prog, ctx.prop, ctx.tier)
+    c11.r2_validators(sub)
+    n = 0
+    for o in sub.obs:
+        if "weight" in (o.construct or "").lower():
+            o.rule = "C12.R8"
+            ctx.obs.append(o)
+            n += 1
+    if n < 1:
+        ctx.vanished(f"Ballot weight validator obligations: only {n}")
+
+
 RULES = [
+    ("C12.R8", r8_weight_validator, 3, "prerequisite: Ballot's weight validator keeps an exact Fraction weight as it is (C11.R2)"),
     ("C12.R1", r1_filter_polarity, 8, "a candidate/position is kept iff it is not being removed (every filter site)"),
     ("C12.R2", r2_order, 8, "rebuilt rankings derive from the source ranking through order-preserving steps; regrouping per position"),
     ("C12.R3", r3_weight_provenance, 10, "result weights are copies, weight/k! over permutations, sums, or 0 for exhausted ballots"),
